@@ -49,7 +49,7 @@ func runC20(r *Run) {
 		"Server.Query with all 16 QueryRateLimiting combinations x NumTries 1..3, WaitToReply on/off, blocklisted destinations, injected socket write failures, closed server; " +
 		"each outcome (datagram, logged drop, Query result) vs writeGate/querySend in Lean. " +
 		"T3: tight limiters (5/s b3, 50/s b1, 200/s b10, ...) under floods of every method from thousands of spoofed sources plus concurrent Server.Query/Ping; " +
-		"oracle: every prefix window [t0,t] with t0 taken before the limiter exists. non-trivial = case that drained the bucket or took a refusal/wait path"
+		"plus wait/cancel histories (burst spent, queries waiting for budget, a query refused because its deadline lies before its slot, waiters cancelled, later queries); oracle: every prefix window [t0,t] with t0 taken before the limiter exists. non-trivial = case that drained the bucket or took a refusal/wait path"
 	r.note("unmodelled: Reservation.Cancel (a Query whose context ends while its sender waits in SendLimiter.Wait): it restores at most the reserved token and that reservation never becomes a datagram, so the prefix oracle stays sound; counted as flood/unmodelled/cancel-possible")
 	r.note("assumed, not verified: x/time/rate orders concurrent callers by the instant each read the clock, not by lock order (a stale `now` moves `last` back); the Lean bucket reproduces this on synthetic timelines (steps back in time), the theorems assume a clock that never steps back")
 	c20Policies(r)
@@ -57,6 +57,7 @@ func runC20(r *Run) {
 	c20Gate(r)
 	c20Floods(r)
 	c20Shared(r)
+	c20WaitCancel(r)
 }
 
 // ---- policy table (emitted so the diff also covers the driver's parsing) ----
@@ -1118,5 +1119,93 @@ func c20Shared(r *Run) {
 			r.count(fmt.Sprintf("shared %+v %d", sc, seed), len(at) >= sc.burst)
 			r.sample(map[string]interface{}{"shared_limiter": replay, "rated": len(at), "over_budget_prefixes": over})
 		})
+	}
+}
+
+// ---- T3: reservations abandoned while waiting (context cancelled / deadline before the slot) ----
+
+// A query waiting for send budget holds a reservation in the limiter; giving it up hands the token
+// back at the instant of the cancellation. Histories: the burst is spent, one or two queries wait,
+// a query whose deadline lies before its slot is refused, the waiters are cancelled, later queries
+// are issued. Oracle: every prefix of the datagrams actually written fits burst + rate x elapsed,
+// with t0 taken before the limiter exists.
+func c20WaitCancel(r *Run) {
+	for i := 0; i < r.n(40, 400); i++ {
+		x := []c20Rate{{10, 1}, {20, 1}, {40, 1}}[r.rng.Intn(3)]
+		burst := 1 + r.rng.Intn(2)
+		slot := time.Duration(int64(time.Second) * x.q / x.p)
+		t0 := time.Now()
+		lim := rate.NewLimiter(x.limit(), burst)
+		conn := newFakeConn(nil)
+		cfg := baseConfig(conn)
+		cfg.SendLimiter = lim
+		s, err := dht.NewServer(cfg)
+		if err != nil {
+			r.violation("NewServer failed: "+err.Error(), nil)
+			return
+		}
+		var events []string
+		var wg sync.WaitGroup
+		issue := func(name string, ctx context.Context, k int) {
+			wg.Add(1)
+			dst := dht.NewAddr(&net.UDPAddr{IP: net.IP{198, 51, 100, byte(k + 1)}, Port: 7000 + k})
+			go func() {
+				defer wg.Done()
+				s.Query(ctx, dst, "ping", dht.QueryInput{NumTries: 1})
+			}()
+			events = append(events, fmt.Sprintf("+%v %s issued", time.Since(t0).Round(time.Millisecond), name))
+		}
+		short, cancelShort := context.WithTimeout(context.Background(), 400*time.Millisecond)
+		k := 0
+		for j := 0; j < burst; j++ { // spend the burst
+			issue("burst query", short, k)
+			k++
+		}
+		conn.waitWrites(burst, time.Second)
+		nWait := 1 + r.rng.Intn(2)
+		var cancels []context.CancelFunc
+		for j := 0; j < nWait; j++ {
+			ctx, cancel := context.WithCancel(context.Background())
+			cancels = append(cancels, cancel)
+			issue("waiter", ctx, k)
+			k++
+		}
+		time.Sleep(time.Duration(int64(slot) * int64(30+r.rng.Intn(40)) / 100)) // 30..70 % into the first slot
+		if r.rng.Intn(4) != 0 {
+			// deadline before its slot: refused at once, which also advances the limiter's clock
+			dctx, dcancel := context.WithTimeout(context.Background(), slot/10)
+			issue("query with a deadline before its slot", dctx, k)
+			k++
+			defer dcancel()
+		}
+		time.Sleep(time.Duration(r.rng.Intn(1+int(slot/20))))
+		for j := len(cancels) - 1; j >= 0; j-- {
+			cancels[j]()
+		}
+		events = append(events, fmt.Sprintf("+%v waiters cancelled", time.Since(t0).Round(time.Millisecond)))
+		time.Sleep(time.Duration(r.rng.Intn(1 + int(slot/10))))
+		for j := 0; j < 1+r.rng.Intn(3); j++ {
+			issue("later query", short, k)
+			k++
+		}
+		wg.Wait()
+		cancelShort()
+		s.Close()
+		ws := conn.writes()
+		for n, w := range ws {
+			dt := w.At.Sub(t0).Nanoseconds()
+			if !c20Within(x, burst, n+1, dt) {
+				ev := append([]string{}, events...)
+				for m, w2 := range ws[:n+1] {
+					ev = append(ev, fmt.Sprintf("datagram %d written at +%v", m+1, w2.At.Sub(t0).Round(100*time.Microsecond)))
+				}
+				r.violation(fmt.Sprintf("rated datagrams exceed burst + rate*t: %d datagrams by +%v with rate %s/s burst %d (a waiting query was abandoned)", n+1, w.At.Sub(t0).Round(100*time.Microsecond), x, burst),
+					map[string]interface{}{"events": ev})
+				break
+			}
+		}
+		r.hist(fmt.Sprintf("wait-cancel/rate=%s/burst=%d/waiters=%d", x, burst, nWait))
+		r.count(fmt.Sprintf("wait-cancel/%d", i), true)
+		r.Result.TracesValidated++
 	}
 }
